@@ -30,6 +30,15 @@ def hist_weights(work=60, net=True, disk=True, views=False):
     return w
 
 
+def maybe_shared(rng, cfg, p=0.1):
+    """A fraction of the runs keeps every replica in a shared-memory block, with attached
+    views (attach_existing_shm / helpers.attach_shared_memory, as parallel_add's workers
+    do) taking part in the history: the oracles keep reading the owner."""
+    if rng.random() < p:
+        cfg["shared"] = True
+        cfg["weights"].update({"attach": 6, "drop_view": 3, "drop_owner": 1})
+
+
 def changed_node(ev, info):
     """index of the node whose sketch may have changed, or None"""
     if info is None:
@@ -105,6 +114,7 @@ class C01(WMode):
             {"one": 1, "small": 1, "ceil": 3, "half": 3, "huge": 2, "pow2": 1},
             {"one": 4, "small": 4, "zero": 1, "pow2s": 1},
         ])
+        maybe_shared(rng, cfg)
         return cfg
 
     def checker(self, cfg):
@@ -222,6 +232,7 @@ class C02(WMode):
         perm2 = list(range(n))
         rng.shuffle(perm2)
         cfg["final_orders"] = [perm, perm2, list(range(n))]
+        maybe_shared(rng, cfg)
         return cfg
 
     def checker(self, cfg):
@@ -372,6 +383,7 @@ class HHMode(WMode):
         # width-1/depth-1 corner: all orders of a small weighted multiset are sampled densely
         if rng.random() < 0.15:
             cfg["width"], cfg["depth"], cfg["n_nodes"] = 1, 1, rng.randrange(1, 3)
+        maybe_shared(rng, cfg)
         return cfg
 
     def checker(self, cfg):
@@ -427,6 +439,9 @@ class C13Checker(Checker):
         if any(counts[j] < counts[j + 1] for j in range(len(counts) - 1)):
             self.fail("not_sorted", f"query({k},{t}) counts {counts}")
         for key, cnt in res:
+            if len(key) > int(sk.max_key_len):
+                # hh[key] raises for such a key: the sketch cannot hold it at all
+                self.fail("reported_key_longer_than_max_key_len", f"query({k},{t}) reports ({key.hex()},{cnt}); max_key_len={int(sk.max_key_len)}")
             h = int(sk[key])
             if cnt != h:
                 self.fail("count_ne_getitem", f"query({k},{t}) reports ({key.hex()},{cnt}) but hh[key]={h}")
@@ -615,6 +630,8 @@ class C05(WMode):
                                       {"one": 1, "small": 1, "ceil": 3, "half": 3, "huge": 2, "pow2": 1}])
         else:
             cfg["mult"] = {"one": 3, "small": 4, "mid": 2, "zero": 1, "pow2s": 1}
+        if fam == "linear":
+            maybe_shared(rng, cfg)
         return cfg
 
     def checker(self, cfg):
